@@ -22,6 +22,14 @@ func init() {
 		"strings.Contains":   inContains,
 		"strings.Index":      inIndex,
 		"strings.Join":       inJoin,
+		"strings.LastIndex": func(m *Machine, fn *ssa.Function, a []Value) Value {
+			s, ok1 := forceLazy(a[0]).(string)
+			sub, ok2 := forceLazy(a[1]).(string)
+			if !ok1 || !ok2 {
+				unsupported("strings.LastIndex on symbolic strings")
+			}
+			return int64(strings.LastIndex(s, sub))
+		},
 		"strings.Split":      inSplit,
 		"strings.Trim":       inTrim,
 		"strings.TrimPrefix": inTrimPrefix,
